@@ -763,7 +763,7 @@ def expand_flex(tokens, name):
             # "A unitless zero that is not already preceded by two flex factors
             # must be interpreted as a flex factor."
             forced_flex_factor = (
-                token.type == 'number' and token.int_value == 0 and
+                token.type == 'number' and token.value == 0 and
                 not all((grow_found, shrink_found)))
             if not basis_found and not forced_flex_factor:
                 new_basis = flex_basis([token])
